@@ -141,7 +141,12 @@ class Monitor:
                              {pk: "x" for _s, pk in ks[len(ks) // 2:]})
                 self.c["wallet_balances_compared"] += 1
                 want = sum(head_bal.get(pk, (0, []))[0] for _s, pk in ks)
-                got = wal.get_balance(cs)
+                try:
+                    got = wal.get_balance(cs)
+                except Exception as e:
+                    self.v("balances-cannot-be-reported-for-a-stored-block", "Wallet.get_balance at the head raises %s: %s" % (
+                        type(e).__name__, str(e)[:80]), w)
+                    got = want
                 if got != want:
                     self.v("wallet-balance-differs", "Wallet.get_balance=%d, unspent outputs paying its keys total %d" % (
                         got, want), w)
